@@ -3,12 +3,16 @@ package c01
 
 import (
 	"fmt"
+	"go/format"
+	"go/parser"
+	"go/token"
 	"os"
 	"runtime"
 	"sync"
 	"sync/atomic"
 	"testing"
 
+	"verif/internal/astcmp"
 	"verif/internal/corpus"
 	"verif/internal/gen"
 	"verif/internal/hx"
@@ -200,4 +204,57 @@ func TestC01Generated(t *testing.T) {
 	if !r.Replaying() && discards*100 > n {
 		r.Inconclusive("program generator: %d of %d programs do not parse (generator bug)", discards, n)
 	}
+}
+
+// FuzzRoundTrip is the native coverage-guided target (thorough tier, time-boxed): source bytes
+// the parser accepts go through the same round-trip oracle.
+func FuzzRoundTrip(f *testing.F) {
+	n := 0
+	for i, file := range corpus.Files(rootFor("").Dir) {
+		if i%29 != 0 {
+			continue
+		}
+		if st, err := os.Stat(file); err != nil || st.Size() > 3000 {
+			continue
+		}
+		if src, err := os.ReadFile(file); err == nil {
+			f.Add(src)
+			n++
+		}
+		if n >= 150 {
+			break
+		}
+	}
+	f.Add([]byte("package p\n\nfunc f() { L: for { break L }; switch x := y.(type) { case int, string: _ = x; default: }; a[1:2:3] = b[:]; return }\n"))
+	f.Fuzz(func(t *testing.T, src []byte) {
+		if len(src) > 1<<14 {
+			t.Skip()
+		}
+		// Domain of the byte-level target: sources that the toolchain's own formatter round-trips.
+		// go/parser is lenient in places (`func() (A[0])` parses although 0 is no type) and gofmt
+		// turns some of what it accepts into text that no longer parses; such inputs say nothing
+		// about jennifer.
+		if !gofmtStable(src) {
+			t.Skip()
+		}
+		if err := check(Case{Name: "fuzz.go", Src: recipe.Text(src)}); err != nil {
+			t.Fatalf("%v\n--- source ---\n%s", err, src)
+		}
+	})
+}
+
+func gofmtStable(src []byte) bool {
+	a, err := parser.ParseFile(token.NewFileSet(), "", src, 0)
+	if err != nil {
+		return false
+	}
+	out, err := format.Source(src)
+	if err != nil {
+		return false
+	}
+	b, err := parser.ParseFile(token.NewFileSet(), "", out, 0)
+	if err != nil {
+		return false
+	}
+	return astcmp.Dump(a.Decls) == astcmp.Dump(b.Decls)
 }
